@@ -97,6 +97,29 @@ def gen_def(rng):
     ntypes = rng.randint(1, 4)
     types = [f"T{i}" for i in range(ntypes)]
     tdefs = {}
+    if rng.random() < 0.1:
+        # a definition whose attributes are constants that are neither strings nor randomizers (the type marker is an int code)
+        for i, ty in enumerate(types):
+            tdefs[ty] = {"_t": i}
+            if rng.random() < 0.5:
+                tdefs[ty]["n"] = rng.randint(0, 5)
+
+        def nspec():
+            sp = {}
+            if rng.random() < 0.8:
+                sp[":count"] = rng.randint(2, 3)
+            if rng.random() < 0.4:
+                sp["ratio"] = 0.5
+            if rng.random() < 0.3:
+                sp["flag"] = True
+            return sp
+
+        rel = {"__root__": {ty: nspec() for ty in rng.sample(types, rng.randint(1, len(types)))}}
+        for i, ty in enumerate(types):
+            later = types[i + 1:]
+            if later and rng.random() < 0.8:
+                rel[ty] = {c: nspec() for c in rng.sample(later, rng.randint(1, len(later)))}
+        return {"relations": rel, "types": tdefs}
     if rng.random() < 0.6:
         tdefs["*"] = {"g": rng.randint(0, 9), "gg": "glob"}
         if rng.random() < 0.2:
@@ -134,7 +157,7 @@ def gen_def(rng):
             s[":count"] = tg.RangeRandomizer(1, 3, probability=0.5)
         elif c == "rangep0":
             s[":count"] = tg.RangeRandomizer(1, 3, probability=0.0)  # never fires: no children
-        s["title"] = rng.choice(["N {idx}", "H {hier_idx}", "{idx}:{hier_idx}", "plain", "{hier_idx}/{idx}/{idx}"])
+        s["title"] = rng.choice(["N {idx}", "H {hier_idx}", "{idx}:{hier_idx}", "plain", "{hier_idx}/{idx}/{idx}", "#{idx:02d}", "{idx:>3}|{hier_idx:>9}"])
         if rng.random() < 0.5:
             s["v"] = tg.RangeRandomizer(5, 9)
         if rng.random() < 0.4:
@@ -151,6 +174,9 @@ def gen_def(rng):
             s["sc"] = tg.SampleRandomizer(["o", "c"], counts=[3, 1])
         if rng.random() < 0.3:
             s["d"] = tg.DateRangeRandomizer(datetime.date(2020, 1, 1), 30, as_js_stamp=False)
+        if rng.random() < 0.25:
+            # relative upper bound (days) together with a probability
+            s["dp"] = tg.DateRangeRandomizer(datetime.date(2022, 5, 1), 20, as_js_stamp=rng.random() < 0.5, probability=rng.choice([0.0, 0.0, 0.5]))
         if rng.random() < 0.2:
             s["dj"] = tg.DateRangeRandomizer(datetime.date(2021, 2, 1), datetime.date(2021, 3, 1), probability=0.7)
         if rng.random() < 0.3:
@@ -222,6 +248,8 @@ def check_tree(tree, sd, typed, bad, res):
         for pos, k in enumerate(kids, 1):
             a = attrs_of(k)
             ty = a.get("_t")
+            if isinstance(ty, int) and not isinstance(ty, bool):
+                ty = f"T{ty}"  # int-coded marker of the all-constant definitions
             if typed:
                 if k.kind != ty:
                     bad.append(f"kind {k.kind!r} != type marker {ty!r}")
